@@ -482,12 +482,16 @@ func (h kvHandler) handleKvRawBatchGet(req *kvrpcpb.RawBatchGetRequest) *kvrpcpb
 		}
 	}
 	values := rawKV.RawBatchGet(req.Cf, req.Keys)
-	kvPairs := make([]*kvrpcpb.KvPair, len(values))
+	kvPairs := make([]*kvrpcpb.KvPair, 0, len(values))
 	for i, key := range req.Keys {
-		kvPairs[i] = &kvrpcpb.KvPair{
+		if i >= len(values) || values[i] == nil {
+			// not found: like TiKV, return no pair for the key
+			continue
+		}
+		kvPairs = append(kvPairs, &kvrpcpb.KvPair{
 			Key:   key,
 			Value: values[i],
-		}
+		})
 	}
 	return &kvrpcpb.RawBatchGetResponse{
 		Pairs: kvPairs,
